@@ -572,6 +572,51 @@ impl<'a, A: Address + 'a, CB: Callback<A> + 'a> Iterator for Tick<'a, A, CB> {
     }
 }
 
+#[cfg(libtw2_verif)]
+impl<A: Address> Net<A> {
+    /// Verification hook: copy of the endpoint, peers in the same order.
+    pub fn verif_clone(&self) -> Net<A> {
+        let mut peers = Peers::new();
+        for (pid, p) in self.peers.iter() {
+            peers.peers.insert(
+                pid,
+                Peer {
+                    conn: p.conn.verif_clone(),
+                    addr: p.addr,
+                    token: p.token,
+                },
+            );
+        }
+        peers.next_peer_id = self.peers.next_peer_id;
+        Net {
+            peers: peers,
+            builder: ConnlessBuilder::new(),
+            accept_connections: self.accept_connections,
+        }
+    }
+    /// Verification hook: plain-data view of the complete endpoint state.
+    pub fn verif_view(&self, now: Timestamp) -> crate::verif::NetView<A> {
+        crate::verif::NetView {
+            peers: self
+                .peers
+                .iter()
+                .map(|(pid, p)| crate::verif::PeerView {
+                    pid: pid.0,
+                    addr: p.addr,
+                    token: p.token,
+                    conn: p.conn.verif_view(now),
+                })
+                .collect(),
+            next_peer_id: self.peers.next_peer_id.0,
+            accept_connections: self.accept_connections,
+        }
+    }
+    /// Verification hook: set the peer id counter (to explore wrap-around).
+    pub fn verif_set_next_peer_id(&mut self, next_peer_id: u32) {
+        self.peers.next_peer_id = PeerId(next_peer_id);
+    }
+}
+
 #[cfg(test)]
 mod test {
     use super::Callback;
